@@ -156,6 +156,15 @@ def run(e: Engine, rep: Report):
              'knows: the recipient is neither delivered, failed nor kept, '
              'and with nobody left to retry the message is removed')
     r125(e, rep)
+    rep.rule('R1.26', 'the call that records an unexpected exception cannot '
+             'replace it: slimta.logging.log_exception stands first in the '
+             'catch-all arms of the queue, before the message is filed for '
+             'its retry - it contains no look-up by a computed key '
+             '(table[value.x]) outside a try that takes the KeyError (an '
+             'OSError without errno, a socket.timeout, has errno None: the '
+             'KeyError leaves the arm and the message stays in storage with '
+             'nobody scheduled to attempt it)')
+    r126(e, rep)
     rep.floor('R1.2', 5, 'removal sites')
     rep.floor('R1.5', 3, 'backend uses of the index argument')
 
@@ -1324,3 +1333,55 @@ def r125(e: Engine, rep: Report):
     if n < 1:
         rep.error('anchor vanished: no relay returns a caught exception as '
                   'a result')
+
+
+# ------------------------------------------------------------------ R1.26
+def r126(e: Engine, rep: Report):
+    f = e.p.functions.get('slimta.logging.log_exception')
+    if f is None:
+        rep.error('anchor vanished: slimta.logging.log_exception')
+        return
+    rep.functions.add(f.qname)
+    local = {x.id for x in walk_own(f.node) if isinstance(x, ast.Name) and
+             isinstance(x.ctx, ast.Store)} | set(f.params)
+    n = 0
+    for x in walk_own(f.node):
+        if not (isinstance(x, ast.Subscript) and isinstance(x.ctx, ast.Load)):
+            continue
+        if isinstance(x.slice, (ast.Constant, ast.Slice)):
+            continue
+        base = x.value
+        while isinstance(base, ast.Attribute):
+            base = base.value
+        if isinstance(base, ast.Name) and base.id in local and \
+                isinstance(x.value, ast.Name):
+            continue           # a container the function built itself
+        n += 1
+        rep.evaluations += 1
+        guarded = False
+        for t in walk_own(f.node):
+            if isinstance(t, ast.Try) and any(
+                    x in ast.walk(b) for b in t.body):
+                for h in t.handlers:
+                    hs = ast.unparse(h.type) if h.type is not None else ''
+                    if h.type is None or any(k in hs for k in (
+                            'KeyError', 'LookupError', 'Exception')):
+                        guarded = True
+        rep.check(guarded, 'R1.26', f.qname,
+                  '`%s` cannot raise out of the logging call'
+                  % ' '.join(ast.unparse(x).split())[:40],
+                  'log_exception looks `%s` up with a key taken from the '
+                  'exception being logged: for a key the table does not '
+                  'have (errno None of a socket.timeout or of an OSError '
+                  'raised without a number) the KeyError replaces the '
+                  'exception the catch-all arm of Queue._attempt was '
+                  'handling - the arm is left before _retry_later, the '
+                  'message stays stored and is neither retried nor bounced '
+                  'until the next restart'
+                  % ' '.join(ast.unparse(x).split())[:40],
+                  loc=f.loc(x), reason='inside try/except KeyError')
+    rep.evaluations += 1
+    if n == 0:
+        rep.ok('R1.26', f.qname, 'no look-up by a computed key in '
+               'log_exception', reason='nothing that can raise KeyError',
+               nontrivial=False)
